@@ -17,7 +17,7 @@ package ledger
 // ---- posting.go -----------------------------------------------------------------------------------
 
 //@ func (p Postings) Reverse() (r Postings)
-//@   property C15
+//@   property C15 C13
 //@   ensures isReverse(r, p)
 //@   loop 1:
 //@     invariant len(postings) == len(p)
@@ -32,30 +32,30 @@ package ledger
 // ---- transaction.go -------------------------------------------------------------------------------
 
 //@ func NewTransactionData() (r TransactionData)
-//@   property C15
+//@   property C15 C13
 //@   ensures len(r.Postings) == 0 && r.Reference == ""
 
 //@ func NewTransaction() (r Transaction)
-//@   property C15
+//@   property C15 C13
 //@   ensures len(r.Postings) == 0 && r.ID == nil && r.RevertedAt == nil && r.Reference == "" && r.Template == ""
 
 //@ func (data TransactionData) WithPostings(postings ...Posting) (r TransactionData)
-//@   property C15
+//@   property C15 C13
 //@   ensures len(data.Postings) == 0 ==> len(r.Postings) == len(postings) && forall i int :: {r.Postings[i]} 0 <= i && i < len(postings) ==> r.Postings[i] == postings[i]
 //@   ensures r.Metadata == data.Metadata && r.Timestamp == data.Timestamp && r.Reference == data.Reference
 
 //@ func (tx Transaction) WithPostings(postings ...Posting) (r Transaction)
-//@   property C15
+//@   property C15 C13
 //@   ensures len(tx.Postings) == 0 ==> len(r.Postings) == len(postings) && forall i int :: {r.Postings[i]} 0 <= i && i < len(postings) ==> r.Postings[i] == postings[i]
 //@   ensures r.Metadata == tx.Metadata && r.Timestamp == tx.Timestamp && r.Reference == tx.Reference && r.ID == tx.ID && r.RevertedAt == tx.RevertedAt && r.Template == tx.Template
 
 //@ func (tx Transaction) Reverse() (r Transaction)
-//@   property C15
+//@   property C15 C13
 //@   ensures isReverse(r.Postings, tx.Postings)
 //@   ensures r.ID == nil && r.RevertedAt == nil && r.Reference == "" && r.Template == ""
 
 //@ func (tx Transaction) WithTimestamp(ts time.Time) (r Transaction)
-//@   property C15
+//@   property C15 C13
 //@   ensures r.Timestamp == ts && r.Postings == tx.Postings && r.Metadata == tx.Metadata && r.Reference == tx.Reference && r.ID == tx.ID && r.RevertedAt == tx.RevertedAt && r.Template == tx.Template
 
 //@ func (tx Transaction) InvolvedDestinations() (ret map[string][]string)
@@ -89,24 +89,24 @@ package ledger
 //@   ensures forall k string :: {has(r, k)} !has(m2, k) ==> has(r, k) == has(m1, k) && r[k] == m1[k]
 
 //@ func SpecMetadata(name string) (r string)
-//@   property C15
+//@   property C15 C13
 //@   ensures r == "com.formance.spec/" + name
 
 //@ func RevertMetadataSpecKey() (r string)
-//@   property C15
+//@   property C15 C13
 //@   ensures r == revertsKey()
 
 //@ func ComputeMetadata(key string, value string) (r metadata.Metadata)
-//@   property C15
+//@   property C15 C13
 //@   ensures r != nil && has(r, key) && r[key] == value
 //@   ensures forall k string :: {has(r, k)} k != key ==> !has(r, k)
 
 //@ func RevertMetadata(txID uint64) (r metadata.Metadata)
-//@   property C15
+//@   property C15 C13
 //@   ensures r != nil && has(r, revertsKey()) && r[revertsKey()] == str(txID)
 //@   ensures forall k string :: {has(r, k)} k != revertsKey() ==> !has(r, k)
 
 //@ func MarkReverts(m metadata.Metadata, txID uint64) (r metadata.Metadata)
-//@   property C15
+//@   property C15 C13
 //@   ensures r != nil && has(r, revertsKey()) && r[revertsKey()] == str(txID)
 //@   ensures forall k string :: {has(r, k)} k != revertsKey() ==> has(r, k) == has(m, k) && r[k] == m[k]
